@@ -17,6 +17,7 @@ every operation + the read-back battery. A history stops at the first step where
 
 import copy
 import json
+import math
 
 from harness.common.framework import Prop
 
@@ -58,6 +59,8 @@ def dec(j, missing, insertion=None):
       return missing
     if 'ins' in j:
       return insertion(dec(j['ins'], missing, insertion))
+    if 'f' in j:
+      return -0.0 if j['f'] == '-0' else float(j['f'])
     raise ValueError('bad value encoding %r' % (j,))
   return j
 
@@ -66,6 +69,12 @@ def enc(v):
   """Python value (plain or symbolic) -> JSON encoding. Public iteration only."""
   if v is None or isinstance(v, (bool, int, str)):
     return v
+  if isinstance(v, float):     # only integral floats cross the protocol; -0.0 has its own token
+    if v == 0 and math.copysign(1.0, v) < 0:
+      return {'f': '-0'}
+    if v.is_integer():
+      return {'f': int(v)}
+    return {'other': 'float'}
   if isinstance(v, _Missing) or type(v).__name__ == 'MissingValue':
     return {'m': 0}
   if isinstance(v, dict):
@@ -75,6 +84,12 @@ def enc(v):
   if type(v).__name__ == 'Insertion':
     return {'ins': enc(v.value)}
   return {'other': type(v).__name__}
+
+
+def same(a, b):
+  """Equality of two encodings as JSON text: Python's `==` would conflate True / 1 (and False / 0), which
+  are exactly the equal-but-distinguishable values the property has to keep apart."""
+  return json.dumps(a, sort_keys=True) == json.dumps(b, sort_keys=True)
 
 
 def has_missing(j):
@@ -98,6 +113,9 @@ def err_name(e):
 # ------------------------------------------------------------------------------------------
 # Reference: builtin list / dict + the documented extensions
 # ------------------------------------------------------------------------------------------
+
+KEYFN = {None: None, 'len': len, 'neg': lambda v: -v, 'abs': abs, 'const': lambda v: 0}
+
 
 class RefInsertion:
   def __init__(self, value):
@@ -159,7 +177,7 @@ def ref_list_step(p, op):
   elif o == 'clear':
     p.clear()
   elif o == 'sort':
-    p.sort(reverse=op['rev'])
+    p.sort(key=KEYFN[op.get('key')], reverse=op['rev'])
   elif o == 'reverse':
     p.reverse()
   elif o == 'iadd':
@@ -297,7 +315,7 @@ def pg_list_step(pg, x, op):
   elif o == 'clear':
     x.clear()
   elif o == 'sort':
-    x.sort(reverse=op['rev'])
+    x.sort(key=KEYFN[op.get('key')], reverse=op['rev'])
   elif o == 'reverse':
     x.reverse()
   elif o == 'iadd':
@@ -389,27 +407,27 @@ def battery(pg, kind, x, p):
 
   chk('len', lambda: len(x) == len(p))
   chk('eq', lambda: (x == p) and (p == x) and not (x != p))
-  chk('to_json', lambda: pg.to_json(x) == pg.to_json(p))
+  chk('to_json', lambda: same(enc(pg.to_json(x)), enc(pg.to_json(p))))
   chk('symbolic-children', lambda: all_symbolic(pg, x))
   if kind == 'list':
     n = len(p)
-    chk('iter', lambda: enc(list(iter(x))) == enc(p))
-    chk('getitem', lambda: all(enc(x[i]) == enc(p[i]) for i in range(-n, n)))
+    chk('iter', lambda: same(enc(list(iter(x))), enc(p)))
+    chk('getitem', lambda: all(same(enc(x[i]), enc(p[i])) for i in range(-n, n)))
     chk('in', lambda: all((v in x) for v in p) and ('<absent>' not in x))
     for s in (slice(None, None, -1), slice(1, None), slice(None, -1), slice(None, None, 2), slice(-2, None, -2),
               slice(n, 0, -1), slice(1, n + 3, 3)):
       chk('slice[%s:%s:%s]' % ('' if s.start is None else ('n' if s.start == n and n > 2 else s.start),
                                '' if s.stop is None else ('n+3' if s.stop == n + 3 else s.stop),
                                '' if s.step is None else s.step),
-          lambda s=s: enc(x[s]) == enc(p[s]))
-    chk('reversed', lambda: enc(list(reversed(x))) == enc(list(reversed(p))))
+          lambda s=s: same(enc(x[s]), enc(p[s])))
+    chk('reversed', lambda: same(enc(list(reversed(x))), enc(list(reversed(p)))))
   else:
-    chk('iter', lambda: list(iter(x)) == list(iter(p)))
-    chk('keys', lambda: list(x.keys()) == list(p.keys()))
-    chk('values', lambda: enc(list(x.values())) == enc(list(p.values())))
-    chk('items', lambda: enc([list(kv) for kv in x.items()]) == enc([list(kv) for kv in p.items()]))
-    chk('getitem', lambda: all(enc(x[k]) == enc(p[k]) for k in p))
-    chk('get', lambda: all(enc(x.get(k)) == enc(p.get(k)) for k in list(p) + ['<absent>']))
+    chk('iter', lambda: same(list(iter(x)), list(iter(p))))
+    chk('keys', lambda: same(list(x.keys()), list(p.keys())))
+    chk('values', lambda: same(enc(list(x.values())), enc(list(p.values()))))
+    chk('items', lambda: same(enc([list(kv) for kv in x.items()]), enc([list(kv) for kv in p.items()])))
+    chk('getitem', lambda: all(same(enc(x[k]), enc(p[k])) for k in p))
+    chk('get', lambda: all(same(enc(x.get(k)), enc(p.get(k))) for k in list(p) + ['<absent>']))
     chk('in', lambda: all(k in x for k in p) and ('<absent>' not in x))
   return bad
 
@@ -441,10 +459,19 @@ def classify(kind, op, n_before, diff):
 # Generator
 # ------------------------------------------------------------------------------------------
 
-ATOMS = [0, 1, 2, 3, -1, 7, True, False, None, 'a', 'b', '', 'a.b', 'x[0]', 'é', 'zz']
+ATOMS = [0, 1, 2, 3, -1, 7, True, False, None, 'a', 'b', '', 'a.b', 'x[0]', 'é', 'zz',
+         {'f': 1}, {'f': 0}, {'f': '-0'}, {'f': 2}]
+# Equal-but-distinguishable values (1 == 1.0 == True, 0 == 0.0 == -0.0 == False; equal sort keys):
+# what a stable sort, remove / index / count / `in` must tell apart.
+TIE_POOLS = {
+    'num': [1, True, {'f': 1}, 0, False, {'f': 0}, {'f': '-0'}, 2, {'f': 2}, -1, {'f': -1}, 3],
+    'str': ['a', 'b', 'ab', 'ba', '', 'zz', 'é', 'c', 'aa', 'a'],
+    'len': ['ab', 'ba', [1, 2], [2, 1], {'d': [['k', 1]]}, {'d': [['j', 2]]}, [], {'d': []}, '', [[]], ['a'],
+            [True], [1], [{'f': 1}]],
+}
 NESTED = [[], [1, 2], ['a'], {'d': []}, {'d': [['k', 1]]}, [[1], {'d': [['a', [2]]]}],
           {'d': [['x', {'d': [['y', 0]]}], [3, [True]]]}, [None, [[]]]]
-KEYS = ['a', 'b', 'c', 'k', 'a.b', 'x[0]', '', 0, 1, 2, -1, 10, 'd', 'é']
+KEYS = ['a', 'b', 'c', 'k', 'a.b', 'x[0]', '', 0, 1, 2, -1, 10, 'd', 'é', True, False, True, False, 1, 0]
 
 
 def simple_key(k):
@@ -466,14 +493,17 @@ def incomparable(a, b):
 class Gen:
   def __init__(self, rng):
     self.r = rng
+    self.pool = None          # name of the tie pool of the current history (None: general vocabulary)
 
   def val(self, allow_missing=False, nested_p=0.25):
     r = self.r
     if allow_missing and r.chance(0.07):
       return dict(MISSING_J)
+    if self.pool and r.chance(0.92):
+      return copy.deepcopy(r.choice(TIE_POOLS[self.pool]))
     if r.chance(nested_p):
       return copy.deepcopy(r.choice(NESTED))
-    return r.choice(ATOMS)
+    return copy.deepcopy(r.choice(ATOMS))
 
   def vals(self, lo=0, hi=4, allow_missing=False):
     return [self.val(allow_missing) for _ in range(self.r.randint(lo, hi))]
@@ -496,12 +526,33 @@ class Gen:
     step = r.weighted([(5, None), (3, 1), (3, -1), (2, 2), (2, -2), (1, 3), (1, -3), (1, 0)])
     return [self.bound(n), self.bound(n), step]
 
-  def sortable(self, p):
-    if len(p) < 2:
-      return True
-    if all(isinstance(v, (bool, int)) for v in p):
-      return True
-    return all(isinstance(v, str) for v in p)
+  def sort_args(self, p):
+    """(key, reverse) for a sort of the reference list `p`, or None. A key function that raises leaves the
+    list as it is (any length); a failing comparison leaves lists longer than 2 in an unspecified order,
+    so it is only issued on incomparable pairs."""
+    r = self.r
+    if self.pool == 'len':
+      key = r.weighted([(6, 'len'), (2, 'const'), (1, None), (1, 'neg')])
+    elif self.pool == 'num':
+      key = r.weighted([(5, None), (2, 'neg'), (2, 'abs'), (2, 'const'), (1, 'len')])
+    else:
+      key = r.weighted([(6, None), (2, 'len'), (2, 'const'), (1, 'neg'), (1, 'abs')])
+    rev = r.chance(0.5)
+    try:
+      keys = [KEYFN[key](v) for v in p] if key else list(p)
+    except TypeError:
+      return (key, rev) if r.chance(0.3) else None
+    if all(isinstance(k, (bool, int, float)) for k in keys) or all(isinstance(k, str) for k in keys):
+      return key, rev
+    if len(keys) < 2:
+      return key, rev
+    try:     # keys that are containers compare lexicographically: outside the Lean Spec layer
+      sorted(keys)
+      sorted(reversed(keys))
+    except TypeError:
+      if len(p) == 2 and r.chance(0.5):
+        return key, rev
+    return None
 
   def present(self, p, allow_missing=False):
     if p and self.r.chance(0.7):
@@ -511,10 +562,11 @@ class Gen:
   def list_op(self, p):
     r = self.r
     n = len(p)
+    tie = 5 if self.pool else 1      # tie histories: mostly sorts and equality-based operations
     o = r.weighted([
         (6, 'set'), (8, 'setslice'), (4, 'del'), (5, 'delslice'), (6, 'append'), (6, 'insert'), (5, 'extend'),
-        (5, 'pop'), (4, 'remove'), (1, 'clear'), (3, 'sort'), (2, 'reverse'), (3, 'iadd'), (2, 'imul'),
-        (5, 'rebind'), (4, 'get'), (6, 'getslice'), (1, 'len'), (2, 'contains'), (2, 'index'), (2, 'count'),
+        (5, 'pop'), (4 * tie, 'remove'), (1, 'clear'), (3 * tie * 2, 'sort'), (2, 'reverse'), (3, 'iadd'), (2, 'imul'),
+        (5, 'rebind'), (4, 'get'), (6, 'getslice'), (1, 'len'), (2 * tie, 'contains'), (2 * tie, 'index'), (2 * tie, 'count'),
         (2, 'add'), (2, 'mul'), (1, 'copy'), (1, 'bad')])
     op = {'op': o}
     if o in ('set', 'insert'):
@@ -540,11 +592,10 @@ class Gen:
     elif o in ('remove', 'contains', 'index', 'count'):
       op.update(v=self.present(p))
     elif o == 'sort':
-      if not self.sortable(p):
-        # a sort that fails leaves longer lists in an unspecified order: only on incomparable pairs
-        if n != 2 or r.chance(0.5) or not incomparable(p[0], p[1]):
-          return self.list_op(p)
-      op.update(rev=r.chance(0.4))
+      a = self.sort_args(p)
+      if a is None:
+        return self.list_op(p)
+      op.update(rev=a[1], key=a[0])
     elif o in ('imul', 'mul'):
       op.update(n=r.choice([-1, 0, 1, 2, 2, 3]))
     elif o == 'rebind':
@@ -600,8 +651,11 @@ class Gen:
   def history(self, kind=None, max_ops=30):
     r = self.r
     kind = kind or r.weighted([(65, 'list'), (35, 'dict')])
+    self.pool = None
+    if kind == 'list' and r.chance(0.3):
+      self.pool = r.choice(['num', 'num', 'str', 'len'])
     if kind == 'list':
-      init = self.vals(0, 6)
+      init = self.vals(0, 6) if not self.pool else self.vals(2, 7)
       p = dec(init, REF_MISSING)
     else:
       init = {'d': self.pairs({}, 0, 4, allow_missing=False)}
@@ -614,6 +668,8 @@ class Gen:
         (ref_list_step if kind == 'list' else ref_dict_step)(p, op)
       except Exception:   # pylint: disable=broad-except
         pass
+    if self.pool:
+      return {'kind': kind, 'init': init, 'ops': ops, 'src': 'tie-' + self.pool}
     return {'kind': kind, 'init': init, 'ops': ops}
 
 
@@ -658,9 +714,9 @@ class C02(Prop):
       'harness ref_step: the four documented extensions on top of the builtin containers (the oracle\'s copy of the Spec clauses)',
       'modelled, not verified: the Impl model (write primitive, _on_change purge, slice handling, rebind order, '
       'Dict write primitive) is tied to the code by correspondence only',
-      'sort: only key=None; mixed-type sorts only on 2-element lists (CPython leaves longer lists in an unspecified order on TypeError)',
+      'sort: key in {None, len, -x, abs, const}; a sort whose comparison fails only on 2-element lists (CPython leaves longer lists in an unspecified order on TypeError)',
   ]
-  assumptions = ['dict keys are str or int (no bool keys); values are None/bool/int/str and nested list/dict of these',
+  assumptions = ['dict keys are str, int or bool (True == 1 as a key; floats are rejected by pg.Dict and outside the property); values are None/bool/int/integral float/-0.0/str and nested list/dict of these',
                  'operations are applied to one root container; nested containers are only read back']
 
   # -- generation ----------------------------------------------------------------------------
@@ -695,7 +751,7 @@ class C02(Prop):
       except Exception as e:   # pylint: disable=broad-except
         a = {'r': None, 'e': err_name(e)}
       a['s'] = enc(p)
-      if a['e'] is None and a['s'] != before:
+      if a['e'] is None and not same(a['s'], before):
         changed = True
       try:
         if op.get('nf'):
@@ -712,9 +768,9 @@ class C02(Prop):
       diff = None
       if a['e'] != b['e']:
         diff = 'error-class(%s->%s)' % (a['e'], b['e'])
-      elif a['s'] != b['s']:
+      elif not same(a['s'], b['s']):
         diff = 'missing-placeholder' if has_missing(b['s']) else 'contents'
-      elif a['r'] != b['r']:
+      elif not same(a['r'], b['r']):
         diff = 'result'
       else:
         bad = battery(pg, kind, x, p)
@@ -739,9 +795,9 @@ class C02(Prop):
     for side in ('spec', 'impl'):
       a = impl_out['model'][side]
       b = model_out.get(side, [])[:n]
-      if a != b:
+      if not same(a, b):
         for i, (u, v) in enumerate(zip(a, b)):
-          if u != v:
+          if not same(u, v):
             return '%s side, step %d %s: %s=%s lean=%s' % (
                 side, i, json.dumps(case['ops'][i]), 'builtin' if side == 'spec' else 'pg',
                 json.dumps(u), json.dumps(v))
